@@ -499,13 +499,26 @@ func RunC17(tier string) int {
 					prepared{"authority_stored_in_module_written_entry(" + e.BaseDenom + ")", nil, &aptypes.MsgDeleteEntry{Authority: e.Authority, BaseDenom: e.BaseDenom}})
 			}
 		}
+		// a ROLE granted and taken away by governance stays taken away: after the governance removal of a
+		// price feeder, none of the feeder's own (non-governance) messages may bring it back or act
+		fdr := w.A("feeder").Addr.String()
+		rm := &oracletypes.MsgRemovePriceFeeders{Authority: w.Gov, Feeders: []string{fdr}}
+		preps = append(preps,
+			prepared{"role_removed_by_governance", []sdk.Msg{rm}, &oracletypes.MsgSetPriceFeeder{Feeder: fdr, IsActive: true}},
+			prepared{"role_removed_by_governance", []sdk.Msg{rm}, &oracletypes.MsgFeedPrice{Provider: fdr, FeedPrice: oracletypes.FeedPrice{Asset: "ATOM", Source: "elys", Price: Dec("123")}}},
+			prepared{"role_removed_by_governance", []sdk.Msg{rm}, &oracletypes.MsgFeedMultiplePrices{Creator: fdr, FeedPrices: []oracletypes.FeedPrice{{Asset: "ATOM", Source: "elys", Price: Dec("123")}}}},
+			prepared{"role_removed_by_governance", []sdk.Msg{rm, &oracletypes.MsgSetPriceFeeder{Feeder: fdr, IsActive: true}}, &oracletypes.MsgFeedPrice{Provider: fdr, FeedPrice: oracletypes.FeedPrice{Asset: "ATOM", Source: "elys", Price: Dec("123")}}},
+		)
 		for _, pc := range preps {
 			u := sdk.MsgTypeURL(pc.attack)
 			c, _ := base.CacheContext()
 			c = c.WithBlockHeight(w.Height() + 1).WithBlockTime(time.Unix(w.Env.Tm+5, 0).UTC())
 			okPrep := true
-			for _, pm := range pc.prep {
+			for pi, pm := range pc.prep {
 				if _, err := app.MsgServiceRouter().Handler(pm)(c, pm); err != nil {
+					if pi > 0 && pc.name == "role_removed_by_governance" {
+						continue // the removed account's own attempt to come back: refusal is the right answer
+					}
 					okPrep = false
 					vacuous = append(vacuous, u+": preparation "+sdk.MsgTypeURL(pm)+" rejected: "+err.Error())
 				}
@@ -527,7 +540,11 @@ func RunC17(tier string) int {
 			res := "rejected"
 			if err == nil {
 				res = "ACCEPTED"
-				add(Finding{Clause: "gov_message_accepted_from_non_authority", Culprit: "direct", Disc: "type=" + u + ",ground=" + strings.SplitN(pc.name, "(", 2)[0], Detail: fmt.Sprintf("%s with a non-governance authority (%s) was accepted by the router handler; stores changed: %v", u, pc.name, digestEq(w.StoreDigest(c, nil), before))})
+				cl := "gov_message_accepted_from_non_authority"
+				if pc.name == "role_removed_by_governance" {
+					cl = "role_gated_message_accepted_without_role"
+				}
+				add(Finding{Clause: cl, Culprit: "direct", Disc: "type=" + u + ",ground=" + strings.SplitN(pc.name, "(", 2)[0], Detail: fmt.Sprintf("%s (%s) was accepted by the router handler; stores changed: %v", u, pc.name, digestEq(w.StoreDigest(c, nil), before))})
 			}
 			cases = append(cases, c17Case{u, "direct", "ordinary_account", pc.name, res})
 		}
